@@ -9,7 +9,7 @@ pub fn prop() -> Prop {
     Prop {
         id: "C04",
         level: "fault_enumeration",
-        rule: "payloads from the C05 generator (valid and invalid) cut with chunk sizes {1,2,3,7,52,53,100,1400,>=payload,65535, random}; all n! arrival orders for n<=6, reversal + every adjacent transposition + 200 random orders beyond; success must equal PwbV2Packet::try_from(concatenation in id order) (Debug image), every order must give the same outcome class (error variant). Single faults on every position: drop i, duplicate i, foreign board, foreign chip, set/clear each EOM flag, resize each non-final chunk, empty list: all must fail. Non-trivial = distinct (payload, chunk size, order) triples with n>=2 chunks + distinct fault cases. Also: chunk boundary shifted with the concatenation unchanged (only the equal-size rule can reject); duplicates adjacent to their original; final chunk longer than the others (legal); messages of 32 948..64 820 one-byte chunks in seven structured arrival orders. Round 4: every ordered pair of the 71 known boards (and chip pairs) with one chunk swapped in, two arrival orders; messages of 40..81 KB in 2..60 large chunks, every order for n<=4 and sampled orders beyond. Round 5: chunk sizes that leave a final chunk holding exactly the 4-byte end marker (or one byte less / more). Round 8: duplicated chunk whose copy carries other packet / channel sequence numbers.",
+        rule: "payloads from the C05 generator (valid and invalid) cut with chunk sizes {1,2,3,7,52,53,100,1400,>=payload,65535, random}; all n! arrival orders for n<=6, reversal + every adjacent transposition + 200 random orders beyond; success must equal PwbV2Packet::try_from(concatenation in id order) (Debug image), every order must give the same outcome class (error variant). Single faults on every position: drop i, duplicate i, foreign board, foreign chip, set/clear each EOM flag, resize each non-final chunk, empty list: all must fail. Non-trivial = distinct (payload, chunk size, order) triples with n>=2 chunks + distinct fault cases. Also: chunk boundary shifted with the concatenation unchanged (only the equal-size rule can reject); duplicates adjacent to their original; final chunk longer than the others (legal); messages of 32 948..64 820 one-byte chunks in seven structured arrival orders. Round 4: every ordered pair of the 71 known boards (and chip pairs) with one chunk swapped in, two arrival orders; messages of 40..81 KB in 2..60 large chunks, every order for n<=4 and sampled orders beyond. Round 5: chunk sizes that leave a final chunk holding exactly the 4-byte end marker (or one byte less / more). Round 10: double fault keeping count and end points (chunk j lost, chunk k twice, every pair of positions). Round 8: duplicated chunk whose copy carries other packet / channel sequence numbers.",
         assumptions: &["Debug output is a faithful image of a decoded packet", "found/expected fields of DeviceId/ChannelIdMismatch name the first chunk in arrival order: not demanded by the property, only the variant is compared"],
         profiles: both,
         shards: shards16,
@@ -253,6 +253,14 @@ fn run(ctx: &mut Ctx) {
             let mut l = chunks.clone();
             l.push(chunks[k].clone());
             fault(ctx, "duplicate chunk", l, rng);
+            // double fault that keeps the count and both end points: chunk j lost, chunk k arrives twice (round 10)
+            for &j in &positions {
+                if j != k && j + 1 < nn && k + 1 < nn {
+                    let mut l = chunks.clone();
+                    l[j] = chunks[k].clone();
+                    fault(ctx, "one chunk lost and another duplicated", l, rng);
+                }
+            }
             // the copy carries other packet / channel sequence numbers (a "retransmission"): still a duplicated id
             let mut r2 = raw[k].clone();
             r2.packet_sequence = r2.packet_sequence.wrapping_add(1 + rng.below(1000) as u32);
@@ -501,4 +509,5 @@ fn run(ctx: &mut Ctx) {
     ctx.require("chunk lists reassembled successfully in every order", 50);
     ctx.require("orders tried exhaustively (n<=6)", 100);
     ctx.require("fault: drop chunk", 20);
+    ctx.require("fault: one chunk lost and another duplicated", 20);
 }
